@@ -1,52 +1,54 @@
 (* C13 -- property theorems only.  Each is closed by `exact <lemma>`; axioms are
-   printed by the audit step of bin/check (Print Assumptions per theorem). *)
+   printed by the audit step of bin/check (Print Assumptions per theorem).
+   History.v (refutations about the code before the fix: commits) is required
+   so that it is compiled and audited with the rest. *)
 From Coq Require Import ZArith NArith Bool List.
-From SV Require Import Common.GoInt C13.Base C13.Index C13.Str C13.Seq C13.Spec C13.ProofsIndex.
+From SV Require Import Common.GoInt C13.Base C13.Index C13.Str C13.Seq C13.Spec.
+From SV Require Import C13.ProofsIndex C13.ProofsSlice.
+From SV Require C13.History.
 Import ListNotations.
 Open Scope Z_scope.
 
 (* x[lo:hi:step] for a string, bytes, list or tuple x of ANY length, every
-   operand None / an int in the AsInt32 domain / a non-int, every stride:
-   the Go computation (slice -> indices/asIndex -> the Slice loop run with fuel
+   operand None / an int of any size / a non-int, every stride: the Go
+   computation (slice -> indices/asIndex -> the Slice loop run with fuel
    len(x)+1, or the step = 1 fast path) returns exactly Python's slice -- the
-   elements at slice.indices' arithmetic progression -- never panics, never
-   runs out of fuel; step = 0 and non-int operands fail on both sides. *)
+   elements at slice.indices' arithmetic progression; it never panics and
+   never runs out of fuel (both would be other constructors of `outcome`);
+   step = 0 and non-int operands fail on both sides.  The bound 2^61 on the
+   length only keeps Go's int arithmetic away from 2^63. *)
 Theorem slice_correct :
   forall (A : Type) (xs : list A) lo hi st,
     Z.of_nat (length xs) <= 2^61 ->
-    small_arg lo = true -> small_arg hi = true -> small_arg st = true ->
     slice_impl xs lo hi st = of_spec (slice_spec xs lo hi st).
 Proof. exact slice_correct_lemma. Qed.
 
-(* outside the AsInt32 domain the code returns an error *)
-Theorem slice_rejects_outside_int32 :
-  forall (A : Type) (xs : list A) lo hi st,
-    small_arg lo && small_arg hi && small_arg st = false -> slice_impl xs lo hi st = Err.
-Proof. exact slice_rejects_outside_int32_lemma. Qed.
-
+(* x[i]: -n <= i < n, n added to a negative i; anything else fails *)
 Theorem index_correct :
   forall (A : Type) (xs : list A) y,
     Z.of_nat (length xs) <= 2^31 -> get_index xs y = of_spec (index_spec xs y).
 Proof. exact index_correct_lemma. Qed.
 
+(* x[i] = v on a list *)
 Theorem setindex_correct :
   forall (A : Type) (xs : list A) y v,
     Z.of_nat (length xs) <= 2^31 -> set_index xs y v = of_spec (setindex_spec xs y v).
 Proof. exact setindex_correct_lemma. Qed.
 
-(* the (start, end) normalisation shared by find/count/startswith/list.index *)
+(* the (start, end) normalisation shared by find/count/startswith/list.index:
+   defaults, n added to negatives, truncation to [0, n] -- for operands of any size *)
 Theorem indices_clamp :
-  forall n lo hi,
-    0 <= n <= 2^61 -> small_arg lo = true -> small_arg hi = true ->
-    indices lo hi n = clamped_bounds n lo hi.
+  forall n lo hi, 0 <= n <= 2^61 -> indices lo hi n = clamped_bounds n lo hi.
 Proof. exact indices_clamp_lemma. Qed.
 
 (* Non-vacuity *)
 Example slice_premises_hold :
   let xs := [98; 97; 110; 97; 110; 97]%N in
-  Z.of_nat (length xs) <= 2^61 /\ small_arg (AInt 4) = true /\ small_arg ANone = true /\ small_arg (AInt (-2)) = true /\
+  Z.of_nat (length xs) <= 2^61 /\
   slice_impl xs (AInt 4) ANone (AInt (-2)) = Ok [110; 110; 98]%N /\
   slice_spec xs (AInt 4) ANone (AInt (-2)) = Some [110; 110; 98]%N /\
+  slice_impl xs ANone (AInt (2^100)) (AInt (2^70)) = Ok [98]%N /\
   slice_impl xs ANone ANone (AInt 0) = Err /\
-  get_index xs (AInt (-6)) = Ok 98%N /\ get_index xs (AInt 6) = Err.
+  get_index xs (AInt (-6)) = Ok 98%N /\ get_index xs (AInt 6) = Err /\
+  indices (AInt (-2)) (AInt (2^80)) 6 = Some (4, 6).
 Proof. vm_compute. repeat split; intro; discriminate. Qed.
